@@ -180,8 +180,8 @@ func (s *Spec) write(overwrite bool) error {
 	return err
 }
 
-// escapeJSONForYAML escapes DEL and the C1 control characters (U+007F-U+009F)
-// in marshalled JSON. JSON allows them unescaped in strings, but we parse Spec
+// escapeJSONForYAML escapes DEL, the C1 control characters (U+007F-U+009F) and
+// the non-characters U+FFFE and U+FFFF in marshalled JSON. JSON allows them unescaped in strings, but we parse Spec
 // files, JSON ones included, with a YAML parser, which rejects them or, for
 // U+0085 (a YAML line break), alters them: such a Spec could be written but not
 // read back. The escaped form is equivalent JSON and is read back unchanged.
@@ -189,7 +189,7 @@ func escapeJSONForYAML(data []byte) []byte {
 	var out []byte
 	for i := 0; i < len(data); {
 		r, size := utf8.DecodeRune(data[i:])
-		if r == 0x7f || (size > 1 && r >= 0x80 && r <= 0x9f) {
+		if r == 0x7f || (size > 1 && r >= 0x80 && r <= 0x9f) || r == 0xfffe || r == 0xffff {
 			if out == nil {
 				out = append(make([]byte, 0, len(data)+8), data[:i]...)
 			}
